@@ -186,8 +186,8 @@ FinishSection(s, st) == [st EXCEPT ![s] = IF @ = RUN THEN FIN ELSE @]
 
 WBegin(s) ==
   /\ wpc[s] = "worker.begin"                                      \* :152-167 setupNode + loop condition
-  /\ IF canceled
-       THEN /\ status' = FinishSection(s, status) /\ ToTail(s)
+  /\ IF canceled                                                  \* the exec loop is never entered: running -> canceled
+       THEN /\ status' = [status EXCEPT ![s] = IF @ = RUN THEN CANC ELSE @] /\ ToTail(s)
        ELSE /\ wpc' = [wpc EXCEPT ![s] = "worker.exec"] /\ UNCHANGED <<status, tails>>
   /\ UNCHANGED <<cfg, loopVars, retry, doneCnt, cmd, alive, sigd, res, flagVars, stopVars, histVars>>
 
